@@ -303,9 +303,15 @@ def check_case(case, ctx):
         big = coord_image(IMG_H, IMG_W, ox, oy, IMG_H + 110, IMG_W + 130)
         crop2 = eng.crop(big, np.asarray(pts) + np.asarray([ox, oy]), [h_up, h_down])
         ctx.executed()
-        if crop2.shape != crop.shape and abs(crop2.shape[1] - W) == 1 and crop2.shape[0] == lh:
-            # the width is int(length * scale): when that product is an integer up to round-off, the rotation about the page origin
-            # decides between W and W-1; accepted as round-off (counted), anything else is a violation
+        proj = P @ u
+        extent = float(proj.max() - proj.min())
+        integral_extent = abs(extent - round(extent)) < 1e-6
+        if crop2.shape != crop.shape and crop2.shape[0] == lh and (
+                abs(crop2.shape[1] - W) == 1 or (integral_extent and abs(crop2.shape[1] - W) <= math.ceil(sf) + 1)):
+            # the width is int(length * scale), the length is measured on np.arange(left, right) source samples: when length * scale - or the
+            # extent right - left itself (a Pythagorean baseline) - is an integer up to round-off, the rotation about the page origin decides
+            # between two neighbouring values (one column, or one source sample = `scale` columns); accepted as round-off and counted,
+            # anything else is a violation
             ctx.tag('skipped-width-differs-by-one-roundoff')
         elif crop2.shape != crop.shape or np.abs(crop2.astype(np.float64) - crop.astype(np.float64)).max() > 0.2:
             worst = float(np.abs(crop2.astype(np.float64) - crop.astype(np.float64)).max()) if crop2.shape == crop.shape else None
